@@ -78,7 +78,13 @@ top:
 		if 0 < i {
 			key = append(key, '|')
 		}
-		key = append(key, da.Type...)
+		if len(da.Type) == 0 {
+			// An unspecialized required parameter, (defmethod f (x) ...),
+			// is stored under t like (defmethod f ((x t)) ...).
+			key = append(key, 't')
+		} else {
+			key = append(key, da.Type...)
+		}
 	}
 	aux.moo.Lock()
 	defer aux.moo.Unlock()
